@@ -268,7 +268,7 @@ def plan(tier, seed):
                               "block": b, "primary": fi == 0, "points": pts,
                               "key_seed": int(rng.integers(1 << 30))})
     cases.append({"kind": "docs"})
-    ngof = sum(5 * len(c["points"]) for c in cases if c["kind"] == "dist")
+    ngof = sum(7 * len(c["points"]) for c in cases if c["kind"] == "dist")
     if ngof > MAX_GOF:
         raise RuntimeError(f"plan exceeds the Bonferroni budget: {ngof} > {MAX_GOF}")
     # costly (slow to trace / compile) distributions first: the runner deals cases out round-robin, so a list
@@ -446,6 +446,9 @@ def _fn(case, cfg, n=None):
         f = jax.jit(jax.vmap(seed(modular_vmap(lambda *p: samp(p))), in_axes=(0,) + (None,) * k))
     elif cfg == "modular_vmap-axis_size":
         f = jax.jit(seed(modular_vmap(lambda *p: samp(p), in_axes=None, axis_size=n)))
+    elif cfg == "modular_vmap-lanes+sample_shape":
+        # n = size of the sample_shape axis; lanes come from the stacked parameters
+        f = jax.jit(jax.vmap(seed(modular_vmap(lambda *p: samp(p, sample_shape=(n,)))), in_axes=(0,) + (None,) * k))
     elif cfg == "logpdf-grid":
         f = jax.jit(lambda v, *p: jax.vmap(lambda vi: logp(vi, p))(v))
     elif cfg == "logpdf-modular_vmap":
@@ -949,6 +952,25 @@ def _run_dist(case, ctx):
                       f"jax.vmap(seed(modular_vmap(lambda *p: d.sample(...))))(keys[{n}], *params stacked to {B} lanes)")
         if not case["primary"]:
             continue  # the remaining configurations do not depend on how the parameters are named
+        # modular_vmap over parameter lanes of a site that also has a sample_shape: lanes lead, then the sample axis.
+        # Square (sample axis == lane count: a transposed layout keeps the shape, only the law per lane tells) and
+        # non-square (the shape tells).
+        for S_ in (B, B + 1):
+            nk = max(1, n // (4 * S_))
+            f = _fn(case, "modular_vmap-lanes+sample_shape", S_)
+            keys = jax.random.split(jax.random.fold_in(kk, 5 + S_), nk)
+            out = ctx.call(lambda: np.asarray(f(keys, *lanes_p)))
+            what = (f"jax.vmap(seed(modular_vmap(lambda *p: d.sample(..., sample_shape=({S_},)))))(keys[{nk}], "
+                    f"*params stacked to {B} lanes)")
+            want_shape = (nk, B, S_) + ev
+            if _is_raised(out) or tuple(np.asarray(out).shape) != want_shape:
+                _check_sample(case, ctx, "modular_vmap-lanes+sample_shape", out, want_shape,
+                              [(None, pts[0])], allbase, what)
+            else:
+                # (keys, lanes, sample axis) -> (keys * sample axis, lanes): every draw of lane li must follow lane li
+                o2 = np.moveaxis(np.asarray(out), 2, 1).reshape((nk * S_, B) + ev)
+                _check_sample(case, ctx, "modular_vmap-lanes+sample_shape", o2, (nk * S_, B) + ev,
+                              [((slice(None), li), p) for li, p in enumerate(pts)], allbase, what)
         # batched parameters, no sample_shape
         f = _fn(case, "batched-params")
         out = ctx.call(lambda: np.asarray(f(jax.random.fold_in(kk, 1), *lanes_p)))
